@@ -163,3 +163,33 @@ def replay_greedy():
     exp_t, exp_v, exp_p = greedy(fm, 8)
     bad = not (np.array_equal(va, exp_v) and np.array_equal(pp[va], exp_p[exp_v]) and np.allclose(th, exp_t * 2.0))
     return {"reproduced": bool(bad), "input": fm, "observed": {"valid": va.tolist(), "pairs": pp.tolist(), "thickness": th.tolist()}}
+
+
+def gen_assign_cases(seed, n_cases):
+    rng = np.random.default_rng(seed + 2021)
+    for ci in range(n_cases):
+        n = int(rng.integers(2, 14))
+        m = int(rng.integers(1, 40))
+        fm = []
+        for _ in range(m):
+            s, t_ = int(rng.integers(0, n)), int(rng.integers(0, n))
+            fm.append((float(np.round(rng.uniform(0.5, 9.0), 3)), s, t_))
+        yield (ci, n, m), {"n": n, "matches": fm, "voxel": float(rng.choice([1.0, 0.5, 2.0]))}
+
+
+def run_assign_case(c):
+    """process_matches_cpu2cpu on random candidate lists (heavy contention, index 0 included) vs the brute-force greedy matcher"""
+    from cryocat import memthick
+    fm = [tuple(x) for x in c["matches"]]
+    if len(set(d for d, _, _ in fm)) != len(fm):
+        return None  # distance ties are outside the quantifier
+    r, e = call(memthick.process_matches_cpu2cpu, list(fm), c["n"], c["voxel"])
+    if e is not None:
+        return {"raised": f"{type(e).__name__}: {e}"}
+    th, va, pp = (np.asarray(x) for x in r)
+    et, ev, ep = greedy(fm, c["n"])
+    if not np.array_equal(va, ev) or not np.array_equal(pp[va], ep[ev]) or not np.allclose(th, et * c["voxel"], rtol=1e-5, atol=1e-6):
+        tg = pp[va].tolist()
+        return {"what": "assignment differs from greedy one-to-one matching by increasing distance", "target_used_twice": len(set(tg)) != len(tg), "got_pairs": [(int(s), int(pp[s])) for s in np.where(va)[0]],
+                "expected_pairs": [(int(s), int(ep[s])) for s in np.where(ev)[0]]}
+    return None
